@@ -58,7 +58,7 @@ func (p *atomicPolicy) Decide(s *sched.Sim, op sched.Op) sched.Decision {
 func runAtomic(r *runner) *engine.Outcome {
 	s, tp := r.s, r.tp
 	s.MaxSteps = 5000
-	backend := tape.Pick(tp, "b.backend", []string{"os", "osmap", "os", "mem", "oslimit"})
+	backend := tape.Pick(tp, "b.backend", []string{"os", "osmap", "os", "mem", "oslimit", "oslink"})
 	// violations seen through a LimitWriteBucket view carry their own signature namespace
 	ns := "C15|"
 	if backend == "oslimit" {
@@ -112,6 +112,11 @@ func runAtomic(r *runner) *engine.Outcome {
 		bucket = &simfs.Bucket{S: s, U: raw, Name: "dst", YieldReads: true}
 	default:
 		osb, err := storageos.NewProvider().NewReadWriteBucket(dir)
+		if backend == "oslink" {
+			// a bucket that follows symbolic links (what the command line uses); the object that is
+			// replaced is a link to a file next to it
+			osb, err = storageos.NewProvider(storageos.ProviderWithSymlinks()).NewReadWriteBucket(dir, storageos.ReadWriteBucketWithSymlinksIfSupported())
+		}
 		if err != nil {
 			panic(err)
 		}
@@ -134,7 +139,18 @@ func runAtomic(r *runner) *engine.Outcome {
 	if err := storage.PutPath(bg, raw, "bystander.txt", []byte("bystander")); err != nil {
 		panic(err)
 	}
-	if hasOld {
+	if hasOld && backend == "oslink" {
+		real := filepath.Join(filepath.Dir(fileOnDisk), "real-old.bin")
+		if err := os.MkdirAll(filepath.Dir(real), 0o755); err != nil {
+			panic(err)
+		}
+		if err := os.WriteFile(real, old, 0o644); err != nil {
+			panic(err)
+		}
+		if err := os.Symlink("real-old.bin", fileOnDisk); err != nil {
+			panic(err)
+		}
+	} else if hasOld {
 		if err := storage.PutPath(bg, raw, target, old); err != nil {
 			panic(err)
 		}
